@@ -19,7 +19,32 @@ type Violation struct {
 func (v *Violation) Error() string { return v.Msg }
 
 func violf(format string, a ...any) *Violation {
-	return &Violation{Msg: fmt.Sprintf(format, a...)}
+	return &Violation{Msg: asciiSafe(fmt.Sprintf(format, a...))}
+}
+
+// asciiSafe escapes bytes outside printable ASCII (messages travel through JSON between processes
+// and are compared byte for byte on replay).
+func asciiSafe(s string) string {
+	clean := true
+	for i := 0; i < len(s); i++ {
+		if (s[i] < 0x20 && s[i] != '\n' && s[i] != '\t') || s[i] >= 0x7f {
+			clean = false
+			break
+		}
+	}
+	if clean {
+		return s
+	}
+	var sb strings.Builder
+	for i := 0; i < len(s); i++ {
+		c := s[i]
+		if (c < 0x20 && c != '\n' && c != '\t') || c >= 0x7f {
+			fmt.Fprintf(&sb, "\\x%02x", c)
+		} else {
+			sb.WriteByte(c)
+		}
+	}
+	return sb.String()
 }
 
 // Op is one step of a history.  It is plain data so that histories can be written to replay files.
@@ -139,8 +164,15 @@ type World struct {
 var DefaultAddr = atree.Address{1, 2, 3, 4, 5, 6, 7, 8}
 var OtherAddr = atree.Address{8, 7, 6, 5, 4, 3, 2, 1}
 
+// resetPoolsHook, when the build carries the deterministic pool shim, empties the library's
+// process-wide pools; every world then starts from the same (empty) pool state.
+var resetPoolsHook func()
+
 func NewWorld(T uint32) *World {
 	atree.VerifSetThreshold(T)
+	if resetPoolsHook != nil {
+		resetPoolsHook()
+	}
 	l := NewLedger()
 	w := &World{
 		T:      T,
@@ -284,7 +316,7 @@ func (w *World) Reget(c *Cont) error {
 	var v atree.Value
 	var err error
 	if p.IsMap {
-		v, err = p.Map.Get(tu.CompareValue, tu.GetHashInput, ToAtree(p.Keys[pos]))
+		v, err = p.Map.Get(CompareValue, GetHashInput, ToAtree(p.Keys[pos]))
 	} else {
 		v, err = p.Arr.Get(uint64(pos))
 	}
@@ -355,6 +387,11 @@ func (w *World) CmpValue(real atree.Value, m MV) error {
 		r, ok := real.(tu.StringValue)
 		if !ok || r.String() != m.S {
 			return violf("got %T(%.20v…), want string %s", real, real, MVString(m))
+		}
+	case Bytes:
+		r, ok := real.(BytesValue)
+		if !ok || string(r) != m.B {
+			return violf("got %T(%v), want %s", real, real, MVString(m))
 		}
 	case Some:
 		r, ok := real.(tu.SomeValue)
@@ -432,7 +469,7 @@ func (w *World) CmpArray(a *atree.Array, m *Cont) error {
 
 func wrapViol(err error, prefix string) error {
 	if v, ok := err.(*Violation); ok {
-		return &Violation{Msg: prefix + v.Msg}
+		return &Violation{Msg: asciiSafe(prefix + v.Msg)}
 	}
 	return fmt.Errorf("%s%w", prefix, err)
 }
@@ -722,7 +759,7 @@ func (w *World) newValue(o Op, into *Cont) (MV, atree.Value, error) {
 					if comp {
 						key = Str{fmt.Sprintf("f%d", n)}
 					}
-					if old, err := ch.Map.Set(tu.CompareValue, tu.GetHashInput, ToAtree(key), ToAtree(ev)); err != nil || old != nil {
+					if old, err := ch.Map.Set(CompareValue, GetHashInput, ToAtree(key), ToAtree(ev)); err != nil || old != nil {
 						return nil, nil, violf("populating new map child: %v %v", old, err)
 					}
 					ch.Keys = append(ch.Keys, key)
@@ -1068,7 +1105,7 @@ func (w *World) apply(o Op) error {
 				pos = i
 			}
 		}
-		old, err := c.Map.Set(tu.CompareValue, tu.GetHashInput, ToAtree(key), rv)
+		old, err := c.Map.Set(CompareValue, GetHashInput, ToAtree(key), rv)
 		if w.Digests != nil && c.Table && pos < 0 && w.Digests.expectCollisionLimit(c, key) {
 			w.LastRet = "err:collisionlimit"
 			return checkErr(err, errCollisionLimit, o.String())
@@ -1108,7 +1145,7 @@ func (w *World) apply(o Op) error {
 			}
 		}
 		if o.K == "mhas" {
-			has, err := c.Map.Has(tu.CompareValue, tu.GetHashInput, ToAtree(key))
+			has, err := c.Map.Has(CompareValue, GetHashInput, ToAtree(key))
 			if e := checkErr(err, errNone, o.String()); e != nil {
 				return e
 			}
@@ -1118,7 +1155,7 @@ func (w *World) apply(o Op) error {
 			}
 			return w.after(c)
 		}
-		v, err := c.Map.Get(tu.CompareValue, tu.GetHashInput, ToAtree(key))
+		v, err := c.Map.Get(CompareValue, GetHashInput, ToAtree(key))
 		if pos < 0 {
 			w.LastRet = "err:knf"
 			return checkErr(err, errKeyNotFound, o.String())
@@ -1155,7 +1192,7 @@ func (w *World) apply(o Op) error {
 				pos = i
 			}
 		}
-		ks, vs, err := c.Map.Remove(tu.CompareValue, tu.GetHashInput, ToAtree(key))
+		ks, vs, err := c.Map.Remove(CompareValue, GetHashInput, ToAtree(key))
 		if pos < 0 {
 			w.LastRet = "err:knf"
 			return checkErr(err, errKeyNotFound, o.String())
@@ -1217,7 +1254,7 @@ func (w *World) apply(o Op) error {
 		}
 		w.Serial++
 		if c.IsMap {
-			_, _ = c.StaleMap.Set(tu.CompareValue, tu.GetHashInput, ToAtree(w.KeyOf(77)), ToAtree(MakeSimple("t", w.Serial)))
+			_, _ = c.StaleMap.Set(CompareValue, GetHashInput, ToAtree(w.KeyOf(77)), ToAtree(MakeSimple("t", w.Serial)))
 		} else {
 			_ = c.StaleArr.Append(ToAtree(MakeSimple("t", w.Serial)))
 		}
@@ -1377,7 +1414,7 @@ func (w *World) level0Digest(key MV, seed uint64, table bool) (uint64, bool) {
 		return w.Digests.digestsOf(keyNumber(key))[0], true
 	}
 	var scratch [64]byte
-	msg, err := tu.GetHashInput(ToAtree(key), scratch[:])
+	msg, err := GetHashInput(ToAtree(key), scratch[:])
 	if err != nil {
 		return 0, false
 	}
@@ -1466,7 +1503,7 @@ func (w *World) iterMut(c *Cont, o Op) error {
 				ev := MakeSimple("h", w.Serial)
 				if ch.IsMap {
 					key := w.KeyOf(50 + k)
-					if _, err := ch.Map.Set(tu.CompareValue, tu.GetHashInput, ToAtree(key), ToAtree(ev)); err != nil {
+					if _, err := ch.Map.Set(CompareValue, GetHashInput, ToAtree(key), ToAtree(ev)); err != nil {
 						return violf("%s: growing child map during iteration: %v", o, err)
 					}
 					ch.Keys = append(ch.Keys, key)
@@ -1486,7 +1523,7 @@ func (w *World) iterMut(c *Cont, o Op) error {
 		}
 		var old atree.Storable
 		if c.IsMap {
-			old, err = c.Map.Set(tu.CompareValue, tu.GetHashInput, ToAtree(c.Keys[idx]), rv)
+			old, err = c.Map.Set(CompareValue, GetHashInput, ToAtree(c.Keys[idx]), rv)
 		} else {
 			old, err = c.Arr.Set(uint64(idx), rv)
 		}
@@ -1503,7 +1540,7 @@ func (w *World) iterMut(c *Cont, o Op) error {
 	}
 	i := 0
 	if c.IsMap {
-		it, err := c.Map.Iterator(tu.CompareValue, tu.GetHashInput)
+		it, err := c.Map.Iterator(CompareValue, GetHashInput)
 		if err != nil {
 			return violf("%s: Iterator: %v", o, err)
 		}
